@@ -586,7 +586,9 @@ ROUND2 = {
  "C12": " SEMANTICS UNDER EVERY FEATURE SET (round 2): semantics_feature_independent - simulation Rel between the configured store (any Cfg, any origin) and the reference store: grounded, complete, stable, both counting searches and the nogood search (every heuristic, mode, fuel; trace and halting flag) return the same vectors handle for handle; "
         "cli_sections_feature_independent (all nine CLI sections); frontend is now READ by the model: frontend_channel (with a sender attached the log is exactly the created nodes in creation order, answers unchanged), no_sender_no_log; cubes_impacts_feature_independent, restrict_feature_independent_total, answers_after_import (the models exception stated exactly), import_without_fix.",
  "C13": " Round 2: cubes_exact (one statement for EVERY handle: disjoint, sound, consistent with the goal variable, covering exactly for non-terminals; empty for the two constants = the documented reading), impacts restated against Essential (no definitional conjunct), more_models_iff against counts of satisfying assignments, more_models_word_iff for the 64-bit arithmetic.",
- "C14": " Round 2: instantiated answers after both round trips - complete_after_roundtrip, stable_after_roundtrip, count_search_after_roundtrip, nogood_search_after_roundtrip, grounded_after_rebuild; concrete decimal codec (simplified_roundtrip_decimal, no codec hypothesis).",
+ "C14": " Round 2: instantiated answers after both round trips - complete_after_roundtrip, stable_after_roundtrip, count_search_after_roundtrip, nogood_search_after_roundtrip, grounded_after_rebuild; concrete decimal codec (simplified_roundtrip_decimal, no codec hypothesis). THE JSON TEXT IS MODELLED (JsonModel: serde_json's compact printer incl. its escape table, a lexer and reader with serde's derived visitors): decimal_roundtrip (every natural below 2^64, incl. the two terminal variable numbers), string_roundtrip (arbitrary Unicode labels), "
+        "text_roundtrip (for every whitespace and every iteration order of the two hash maps reading the printed text back gives the same state), text_import_fix, text_future_ops_same_handles, text_answers_equal, cli_export_then_import. TIE: the driver's verified parser reads the REAL serde_json text of every persistence case and the Lean printer must reproduce it byte for byte (pjson text); "
+        "texts printed by the Lean model (other member order, whitespace) are imported by the real serde_json + fix_import (pjson lean); 13 accept/reject variations on which serde and the model's reader must agree (pjson alt).",
  "C15": " THREE DIFFERENT ARMS FROM THE TEXT (round 2): CliM.runText models main.rs per arm (parse, --lx/--an sorting before building, naive = from_parser + native sections; biodivine = library-side from_parser + Bio.bioGrounded/bioComplete/bioStable/bioStableRep; hybrid = library grounding, dump, bridge, native sections) with PrintableInterpretation's rendering; "
         "cli_text_faithful (every well-formed text, every mode/flags/sorting/heuristic: exit 0, one block per requested implemented section in documented order, each block a permutation of the specification's answer), three_modes_print_same_sets (now between three different computations), line_format / mark_is_value, lx_prints_in_bytewise_order, "
         "rejects_malformed_text, naive_arm_is_driver_model (the naive arm IS the Cli.run the driver executes against the binary), library_arms_panic_on_special_labels (model-level statement of known finding D6; the library arms carry the hypothesis bioNameOK). The two vacuous theorems of round 1 are deleted. TIE OF ALL THREE ARMS: the driver now runs CliM.runText on the exact TEXT handed to the binary (clirun carries it) in a concrete world (CliM.drvWorld: tagged truth-table library, generic node dump Bio.ttDump, the natural_lexical_cmp sort written down), "
